@@ -25,7 +25,7 @@ def paths(body):
         if k == "seq":
             res = []
             for c in walk(s["s"], 0, cur) or []:
-                if c and c[-1][0] == "ret":
+                if c and c[-1][0] in ("ret", "break", "continue"):
                     res.append(c)
                 else:
                     res += nxt(c) or []
@@ -40,6 +40,8 @@ def paths(body):
             return nxt(cur + [("expr", s["e"])])
         if k == "return":
             return [cur + [("ret", s.get("e"))]]
+        if k in ("break", "continue"):
+            return [cur + [(k,)]]
         if k == "if":
             c0 = list(cur)
             if s.get("init"):
@@ -52,7 +54,7 @@ def paths(body):
                 c1 = c0 + ([("cond", cond, taken)] if cond is not None else [])
                 sub = walk([br], 0, c1) if br else [c1]
                 for c in sub or []:
-                    if c and c[-1][0] == "ret":
+                    if c and c[-1][0] in ("ret", "break", "continue"):
                         res.append(c)
                     else:
                         res += nxt(c) or []
@@ -72,7 +74,10 @@ def paths(body):
                 if c and c[-1][0] == "ret":
                     res.append(c)
                     continue
-                c2 = list(c)
+                if c and c[-1][0] == "break":
+                    res += nxt(c[:-1] + [("loop-exit",)]) or []
+                    continue
+                c2 = list(c[:-1]) if c and c[-1][0] == "continue" else list(c)
                 if k == "for" and s.get("inc") is not None:
                     c2.append(("expr", s["inc"]))
                 if s.get("c") is not None:
